@@ -1,3 +1,5 @@
 // TRUSTED stand-ins (never executed) for the extra API surface used by the command-line analysis (src/analysis.rs)
 impl BooleanNetwork { pub fn to_string(&self) -> String { unimplemented!() } }
 impl SymbolicContext { pub fn new(_bn: &BooleanNetwork) -> Result<SymbolicContext, String> { unimplemented!() } }
+// stand-in for std::fs::read_to_string (the repo calls it unqualified): reads the whole file as text
+pub fn read_to_string(_path: &str) -> Result<String, std::io::Error> { unimplemented!() }
